@@ -279,6 +279,8 @@ func TestC19CS(t *testing.T) {
 		{[]string{"F N", "a0 c0 a0"}, 1, int64(fw.N(40000, 0)), true, true},
 		{[]string{"F D", "a0", "a1"}, 2, int64(fw.N(40000, 2000000)), true, true},
 		{[]string{"D", "a0 c0", "a1"}, 2, int64(fw.N(40000, 2000000)), true, false},
+		// two asserters race on waker 0 while waker 1 is already queued behind it
+		{[]string{"F F", "a1 a0", "a0"}, 2, int64(fw.N(40000, 2000000)), false, true},
 	}
 	var lo, hi int
 	fmt.Sscan(os.Getenv("VERIF_RANGE"), &lo, &hi)
